@@ -29,7 +29,7 @@ check('C03', 'other',
       'contract-based deductive verification (ast->z3 VCs, quantified loop invariant with term-collection instantiation) + bounded stand-in', 'DESIGN.md 5-C03')
 check('C04', 'other',
       'Proved (unbounded, per operation): one-op static-timing step (every finite output entry of _wave_eval inside the window spanned by operand entries + line delays) and strict monotonicity of the stored time stamps under polarity-independent delays. Bounded: netlist-level STA window, rigid shift, power-of-two scaling (down to 2^-24), monotonicity on real runs (dyadic grid).',
-      'stage-1/2 invariants of _wave_eval assumed in this configuration (proved in C03); relational shift/scale clauses and the induction to the netlist-level window are bounded only',
+      'stage-1/2 invariants of _wave_eval assumed in this configuration (proved in C03); the induction to the netlist-level window is carried by the composition contract of level_eval_cpu / WaveSim.c_prop under the memory-map hypotheses and the window recurrence; relational shift/scale clauses are bounded only',
       'contract-based deductive verification (stage 3 of _wave_eval, cvc5/z3 portfolio) + bounded stand-in with a static-timing oracle', 'DESIGN.md 5-C04')
 check('C05', 'other',
       'Proved: per-primitive lemmas L-act and L-8v2v over the spec (finite, z3); they rely on Q2/Q5 of _wave_eval (C03) and the 8-valued loop contract (C02). Bounded: (LogicSim(m=8), WaveSim) pairs on real runs.',
